@@ -10,6 +10,7 @@ CFGS = {
     "pa": {"protoTime": False, "protoArrays": True, "null": True, "jsonany": False, "bq": False},
     "both": {"protoTime": True, "protoArrays": True, "null": True, "jsonany": False, "bq": False},
 }
+CFGS["jsonany"] = dict(CFGS["default"], jsonany=True)
 CASE_RE = re.compile(r'^<<"CASE", (".*")>>$')
 
 
@@ -80,6 +81,8 @@ def trivial(e):
     ev = e.get("ev")
     if ev == "prim":
         return not e.get("u") and not e.get("data")
+    if ev == "hostile":
+        return not e.get("input")
     if ev == "hist":
         return not any(o.get("ret") for o in e.get("out", {}).get("steps", []))
     return False
